@@ -79,6 +79,9 @@ pub struct Opts {
     /// listed in riti.h (English ... ANSI, smart quote); true = reversed (ANSI before English).
     /// A front-end may call them in any order; the result must not depend on it.
     pub reversed_setters: bool,
+    /// true = the context is created with every boolean option inverted (same layout, data and user directory) and
+    /// reaches these options through update_engine before the first event: a live, re-configured context.
+    pub via_update: bool,
 }
 
 impl Opts {
@@ -99,6 +102,7 @@ impl Opts {
             ansi: false,
             smart: true,
             reversed_setters: false,
+            via_update: false,
         }
     }
     pub fn fixed(layout: &str, db: &str, xdg: &str) -> Opts {
@@ -118,6 +122,7 @@ impl Opts {
             ansi: false,
             smart: true,
             reversed_setters: false,
+            via_update: false,
         }
     }
     pub fn is_phonetic(&self) -> bool {
@@ -154,7 +159,7 @@ impl Opts {
             "english": self.english, "psugg": self.psugg, "fsugg": self.fsugg,
             "vowel": self.vowel, "chandra": self.chandra, "kar": self.kar, "reph": self.reph,
             "numpad": self.numpad, "karorder": self.karorder, "ansi": self.ansi, "smart": self.smart,
-            "reversed_setters": self.reversed_setters
+            "reversed_setters": self.reversed_setters, "via_update": self.via_update
         })
     }
     pub fn from_json(v: &Value) -> Opts {
@@ -176,6 +181,7 @@ impl Opts {
             ansi: b("ansi"),
             smart: b("smart"),
             reversed_setters: b("reversed_setters"),
+            via_update: b("via_update"),
         }
     }
     /// Short label of the boolean options for evidence/feature strings.
@@ -203,6 +209,9 @@ impl Opts {
         }
         if s.is_empty() {
             s.push_str("none");
+        }
+        if self.via_update {
+            s.push_str("+(re-configured)");
         }
         s
     }
@@ -282,6 +291,8 @@ impl Panic {
 
 thread_local! {
     static LAST_PANIC: RefCell<Option<Panic>> = const { RefCell::new(None) };
+    /// > 0 while the thread is inside `guard` (a panic there belongs to the code under test and is recorded silently)
+    static IN_GUARD: std::cell::Cell<u32> = const { std::cell::Cell::new(0) };
 }
 
 /// Install a silent panic hook that records message and location per thread.
@@ -306,12 +317,19 @@ pub fn install_panic_hook() {
         let file = file.strip_prefix(&format!("{}/", repo_root())).map(|s| s.to_string()).unwrap_or(file);
         // first line of the message only, and strip volatile numbers inside it
         let msg = msg.lines().next().unwrap_or("").to_string();
+        if IN_GUARD.with(|g| g.get()) == 0 {
+            // a panic of the harness itself: say where (it ends the run as a machinery error)
+            eprintln!("harness panic: {} @ {}:{}", msg, file, line);
+        }
         LAST_PANIC.with(|p| *p.borrow_mut() = Some(Panic { msg, file, line }));
     }));
 }
 
 pub fn guard<T>(f: impl FnOnce() -> T) -> Result<T, Panic> {
-    match catch_unwind(AssertUnwindSafe(f)) {
+    IN_GUARD.with(|g| g.set(g.get() + 1));
+    let r = catch_unwind(AssertUnwindSafe(f));
+    IN_GUARD.with(|g| g.set(g.get() - 1));
+    match r {
         Ok(v) => Ok(v),
         Err(_) => Err(LAST_PANIC.with(|p| p.borrow_mut().take()).unwrap_or(Panic {
             msg: "<panic without hook record>".into(),
@@ -401,7 +419,7 @@ pub fn render(s: &Suggestion, with_pre: bool) -> Result<Rend, ReadErr> {
             return Ok(Rend::Empty);
         }
         let pre = if with_pre {
-            guard(|| s.get_pre_edit_text(0))
+            guard(|| s.get_pre_edit_text(0).to_string())
                 .map_err(|p| err("get_pre_edit_text", 0, p, &[text.clone()]))?
         } else {
             String::new()
@@ -420,7 +438,7 @@ pub fn render(s: &Suggestion, with_pre: bool) -> Result<Rend, ReadErr> {
         if with_pre {
             for i in 0..items.len() {
                 pre.push(
-                    guard(|| s.get_pre_edit_text(i))
+                    guard(|| s.get_pre_edit_text(i).to_string())
                         .map_err(|p| err("get_pre_edit_text", i, p, &items))?,
                 );
             }
@@ -603,7 +621,21 @@ impl Ctx {
     /// `RitiContext::new_with_config` under catch_unwind.
     pub fn new(opts: &Opts) -> Result<Ctx, Panic> {
         let cfg = opts.to_config();
-        let ctx = guard(|| RitiContext::new_with_config(&cfg))?;
+        let ctx = if opts.via_update {
+            let mut inv = opts.clone();
+            inv.via_update = false;
+            for b in [&mut inv.english, &mut inv.psugg, &mut inv.fsugg, &mut inv.vowel, &mut inv.chandra, &mut inv.kar, &mut inv.reph, &mut inv.numpad, &mut inv.karorder, &mut inv.ansi, &mut inv.smart] {
+                *b = !*b;
+            }
+            let cfg0 = inv.to_config();
+            guard(|| {
+                let mut c = RitiContext::new_with_config(&cfg0);
+                c.update_engine(&cfg);
+                c
+            })?
+        } else {
+            guard(|| RitiContext::new_with_config(&cfg))?
+        };
         let journal = Arc::new(Mutex::new(Journal {
             opts: opts.clone(),
             origin: None,
